@@ -612,6 +612,10 @@ func genHistory(r *RNG, o histOpts, cfg string) *hist {
 	h.pad = r.Bool()
 	nu := r.Range(1, o.maxUnits)
 	ts := uint32(1600000000 + r.Intn(1000))
+	if r.Chance(1, 6) {
+		// event timestamps at the ends of the 32-bit field (0 = "no timestamp", beyond 2038)
+		ts = []uint32{0, 1, 1<<31 - 60, 1 << 31, 1<<32 - 4000}[r.Intn(5)]
+	}
 	fileNo := 1
 	for i := 0; i < nu; i++ {
 		ts += uint32(r.Intn(5))
